@@ -61,9 +61,17 @@ def make_module(pid, specs, name='mod'):
                     open(os.path.join(d, sub, fn), 'w').write(txt.replace('{PKG}', pkg))
         else:
             for fn, txt in C.render_package(sp, pkg, 'example.com/corpus').items():
+                if fn == 'zz_driver.go' and sp.expect == 'reject':
+                    continue   # nothing is generated for it, so there is nothing to drive
                 open(os.path.join(d, fn), 'w').write(txt)
         open(os.path.join(d, 'SPEC.txt'), 'w').write('%s\nfamily=%s naming=%s expect=%s\n' % (sp.label, sp.family, sp.naming, sp.expect))
     return mod
+
+
+def pkg_diag(err, pkg):
+    """All diagnostics of `wire gen` that mention the package (messages may span several tab-indented lines)."""
+    msgs = re.split(r'\n(?=wire: )', err)
+    return '\n'.join(m for m in msgs if re.search(r'[/.]%s[/. :]' % pkg, m))
 
 
 def snapshot_gen(mod):
@@ -200,6 +208,10 @@ def run_sideb(pid, specs, props_filter=None, label='sideB', determinism=False):
             if sp.pkg in wrote:
                 res['confirmed'].append(dict(cls='%s:ill-formed program accepted' % ','.join(sp.reject_props), props=sp.reject_props,
                                              msg='wire gen accepted a program it must reject (%s)' % sp.label, artifact_dir=os.path.join(mod, sp.pkg), model=None, harness=label))
+            elif getattr(sp, 'diag_must_contain', None) and sp.diag_must_contain not in pkg_diag(err, sp.pkg):
+                res['confirmed'].append(dict(cls='%s:the diagnostic does not name the type' % ','.join(sp.reject_props), props=sp.reject_props,
+                                             msg='wire gen rejected %s (%s) but no diagnostic for the package mentions %r: %s' % (sp.pkg, sp.label, sp.diag_must_contain, pkg_diag(err, sp.pkg)[:300]),
+                                             artifact_dir=os.path.join(mod, sp.pkg), model=None, harness=label))
             elif not re.search(r'^wire: [^\n]*%s[^\n]*\.go:\d+:\d+: ' % sp.pkg, err, re.M):
                 res['confirmed'].append(dict(cls='C20:rejected without a positioned diagnostic', props=['C20'],
                                              msg='wire gen rejected %s (%s) without any file:line:column diagnostic' % (sp.pkg, sp.label), artifact_dir=os.path.join(mod, sp.pkg), model=None, harness=label))
